@@ -123,6 +123,8 @@ type Loaded struct {
 	Root *packages.Package
 	// RootFiles are the absolute names of the analysed files.
 	RootFiles []string
+	// DiskDir, when set, is the real directory of the root package (programs loaded from disk).
+	DiskDir string
 }
 
 var (
